@@ -120,3 +120,112 @@ pub struct EdgeSink<'a, C: ConnectorCost> {
     pub sw: Ghost<int>,
     pub pre_matched: Ghost<bool>,
 }
+
+// ---- candidate bookkeeping (C03 / C08): WHICH words are offered at a position ----
+/// a node appended since `base` in list e that names word (lex, id)
+pub open spec fn has_new(l: &Lattice, base: &Lattice, e: int, lex: LexType, id: u32) -> bool {
+    0 <= e <= l.len_char
+    && exists|k: int| base.ends[e].len() <= k < l.ends[e].len() && (#[trigger] l.ends[e][k]).lex_type == lex && l.ends[e][k].word_id == id
+}
+
+pub open spec fn justified(n: Node, e: int, sw: int, um: Seq<LexMatch>, nu: int, sm: Seq<LexMatch>, ns: int, unk: Seq<UnkWord>) -> bool {
+    match n.lex_type {
+        LexType::User => exists|i: int| 0 <= i < nu && (#[trigger] um[i]).word_idx.word_id == n.word_id && sw + um[i].end_char == e,
+        LexType::System => exists|i: int| 0 <= i < ns && (#[trigger] sm[i]).word_idx.word_id == n.word_id && sw + sm[i].end_char == e,
+        LexType::Unknown => exists|j: int| 0 <= j < unk.len() && (#[trigger] unk[j]).word_id as u32 == n.word_id && unk[j].end_char as int == e,
+    }
+}
+
+/// the first nu user matches, the first ns system matches and the unknown words `unk` have been offered
+/// since `base` (completeness), and every node appended since `base` is one of them (soundness)
+pub open spec fn cands_inv(l: &Lattice, base: &Lattice, sw: int, um: Seq<LexMatch>, nu: int, sm: Seq<LexMatch>, ns: int, unk: Seq<UnkWord>) -> bool {
+    &&& forall|i: int| 0 <= i < nu ==> has_new(l, base, sw + (#[trigger] um[i]).end_char, LexType::User, um[i].word_idx.word_id)
+    &&& forall|i: int| 0 <= i < ns ==> has_new(l, base, sw + (#[trigger] sm[i]).end_char, LexType::System, sm[i].word_idx.word_id)
+    &&& forall|j: int| 0 <= j < unk.len() ==> has_new(l, base, (#[trigger] unk[j]).end_char as int, LexType::Unknown, unk[j].word_id as u32)
+    &&& forall|e: int, k: int| 0 <= e <= l.len_char && base.ends[e].len() <= k < l.ends[e].len() ==>
+            justified(#[trigger] l.ends[e][k], e, sw, um, nu, sm, ns, unk)
+}
+
+impl Tokenizer {
+    pub open spec fn suffix_of(sent: &Sentence, sw: int) -> Seq<char> { sent.chars@.subrange(sw, sent.chars.len() as int) }
+    /// all user-lexicon entries whose surface is a prefix of the remaining text (none without a user lexicon)
+    pub open spec fn user_matches(&self, sent: &Sentence, sw: int) -> Seq<LexMatch> {
+        if self.dict.data.user_lexicon.is_some() { self.dict.data.user_lexicon.unwrap().spec_matches(Self::suffix_of(sent, sw)) } else { Seq::empty() }
+    }
+    pub open spec fn sys_matches(&self, sent: &Sentence, sw: int) -> Seq<LexMatch> {
+        self.dict.data.system_lexicon.spec_matches(Self::suffix_of(sent, sw))
+    }
+    /// C03: the candidates offered at position sw are exactly the user matches, the system matches and
+    /// spec_unk(.., has_matched = "some lexicon entry matched", ..)
+    pub open spec fn cands_exact(&self, sent: &Sentence, l: &Lattice, base: &Lattice, sw: int) -> bool {
+        let um = self.user_matches(sent, sw);
+        let sm = self.sys_matches(sent, sw);
+        cands_inv(l, base, sw, um, um.len() as int, sm, sm.len() as int,
+            self.dict.data.unk_handler.spec_unk(sent, sw, um.len() + sm.len() > 0, self.max_grouping_len))
+    }
+}
+
+/// one more candidate offered: `x` pushed on list `end` of l0 gives l1; the bookkeeping advances by exactly that item
+pub proof fn lemma_cand_inserted(l0: Lattice, l1: Lattice, base: Lattice, sw: int, end: int,
+        um: Seq<LexMatch>, nu: int, nu2: int, sm: Seq<LexMatch>, ns: int, ns2: int, unk: Seq<UnkWord>, unk2: Seq<UnkWord>)
+    requires
+        cands_inv(&l0, &base, sw, um, nu, sm, ns, unk),
+        0 <= end <= l0.len_char, l1.len_char == l0.len_char, base.ends.len() == l0.ends.len(), l0.len_char < l0.ends.len(),
+        forall|e: int| 0 <= e < l0.ends.len() ==> base.ends[e].len() <= (#[trigger] l0.ends[e]).len(),
+        Lattice::pushed_one(l0.ends@, l1.ends@, end, l1.ends[end][l0.ends[end].len() as int]),
+        0 <= nu <= um.len(), 0 <= ns <= sm.len(),
+        ({
+            let x = l1.ends[end][l0.ends[end].len() as int];
+            ||| (nu2 == nu + 1 && nu < um.len() && ns2 == ns && unk2 == unk && x.lex_type == LexType::User && um[nu].word_idx.word_id == x.word_id && sw + um[nu].end_char == end)
+            ||| (ns2 == ns + 1 && ns < sm.len() && nu2 == nu && unk2 == unk && x.lex_type == LexType::System && sm[ns].word_idx.word_id == x.word_id && sw + sm[ns].end_char == end)
+            ||| (nu2 == nu && ns2 == ns && unk2.len() == unk.len() + 1 && unk2.drop_last() == unk && x.lex_type == LexType::Unknown
+                 && unk2.last().word_id as u32 == x.word_id && unk2.last().end_char as int == end)
+        }),
+    ensures cands_inv(&l1, &base, sw, um, nu2, sm, ns2, unk2),
+{
+    let x = l1.ends[end][l0.ends[end].len() as int];
+    let kx = l0.ends[end].len() as int;
+    assert(l1.ends[end]@ == l0.ends[end]@.push(x));
+    // old witnesses survive: lists only grow and keep their elements
+    assert forall|e: int, lex: LexType, id: u32| has_new(&l0, &base, e, lex, id) implies #[trigger] has_new(&l1, &base, e, lex, id) by {
+        let k = choose|k: int| base.ends[e].len() <= k < l0.ends[e].len() && (#[trigger] l0.ends[e][k]).lex_type == lex && l0.ends[e][k].word_id == id;
+        if e == end { assert(l1.ends[end]@[k] == l0.ends[end]@.push(x)[k]); } else { assert(l1.ends[e] == l0.ends[e]); }
+        assert(l1.ends[e][k] == l0.ends[e][k]);
+    }
+    assert(has_new(&l1, &base, end, x.lex_type, x.word_id)) by { assert(l1.ends[end][kx] == x); }
+    assert forall|i: int| 0 <= i < nu2 implies has_new(&l1, &base, sw + (#[trigger] um[i]).end_char, LexType::User, um[i].word_idx.word_id) by {
+        if i < nu { assert(has_new(&l0, &base, sw + um[i].end_char, LexType::User, um[i].word_idx.word_id)); }
+    }
+    assert forall|i: int| 0 <= i < ns2 implies has_new(&l1, &base, sw + (#[trigger] sm[i]).end_char, LexType::System, sm[i].word_idx.word_id) by {
+        if i < ns { assert(has_new(&l0, &base, sw + sm[i].end_char, LexType::System, sm[i].word_idx.word_id)); }
+    }
+    assert forall|j: int| 0 <= j < unk2.len() implies has_new(&l1, &base, (#[trigger] unk2[j]).end_char as int, LexType::Unknown, unk2[j].word_id as u32) by {
+        if j < unk.len() {
+            assert(unk2[j] == unk[j]) by { if unk2 != unk { assert(unk2.drop_last()[j] == unk2[j]); } }
+            assert(has_new(&l0, &base, unk[j].end_char as int, LexType::Unknown, unk[j].word_id as u32));
+        } else {
+            assert(unk2[j] == unk2.last());
+        }
+    }
+    assert forall|e: int, k: int| 0 <= e <= l1.len_char && base.ends[e].len() <= k < l1.ends[e].len() implies
+            justified(#[trigger] l1.ends[e][k], e, sw, um, nu2, sm, ns2, unk2) by {
+        if e == end && k == kx {
+            assert(l1.ends[e][k] == x);
+            if unk2 != unk && x.lex_type == LexType::Unknown && nu2 == nu && ns2 == ns { assert(unk2[unk2.len() - 1] == unk2.last()); }
+        } else {
+            if e == end { assert(l1.ends[end]@[k] == l0.ends[end]@.push(x)[k]); } else { assert(l1.ends[e] == l0.ends[e]); }
+            let n = l0.ends[e][k];
+            assert(l1.ends[e][k] == n);
+            assert(justified(n, e, sw, um, nu, sm, ns, unk));
+            match n.lex_type {
+                LexType::User => {},
+                LexType::System => {},
+                LexType::Unknown => {
+                    let j = choose|j: int| 0 <= j < unk.len() && (#[trigger] unk[j]).word_id as u32 == n.word_id && unk[j].end_char as int == e;
+                    assert(unk2[j] == unk[j]) by { if unk2 != unk { assert(unk2.drop_last()[j] == unk2[j]); } }
+                },
+            }
+        }
+    }
+}
+
